@@ -276,6 +276,12 @@ fn render_strs(enc: &str) -> Option<String> {
             'r' => "r'x'",
             'R' => "rb'x'",
             'F' => "rf'x'",
+            // empty literals: an empty f-string contributes no piece, an empty plain / bytes literal an empty one
+            'e' => "''",
+            'E' => "f''",
+            'B' => "b''",
+            'G' => "rf\"\"",
+            'T' => "F''''''",
             _ => return None,
         });
     }
